@@ -262,6 +262,13 @@ class DynamicSlicer:
 
             if slc.stack_simulation:
                 # over stack
+                if instr.name == "SWAP":
+                    # SWAP only exchanges two values of the stack, it neither pops nor
+                    # pushes one: the instructions that use them exchange their positions
+                    slc.pops, slc.pushes = 0, 0
+                    if slc.trace_stack.update_swap_operation(instr):
+                        self._logger.debug("IMPLICIT DATA DEPENDENCY (STACK): %s", instr)
+                        imp_data_dep = True
                 stack_dep, include_use = slc.trace_stack.update_push_operations(
                     slc.pushes, returned=state.returned
                 )
